@@ -479,8 +479,13 @@ example : (insertNode auS auCx auS1 ⟨20, some ⟨0, 1⟩, .int 7⟩).nodes =
 
 /-- Insertion-order independence: inserting the nodes `xs` one by one and inserting `ys` one by one give the same
     sibling list whenever every class of ties (user-ordered instances of one schema, opaque nodes, equal keys) occurs in
-    the same relative order in `xs` and `ys` — in particular for any two permutations of nodes with pairwise distinct
-    (schema, key) — and independently of the hash-table regime (`cx₁`, `cx₂` may differ in `nested`). -/
+    the same relative order in `xs` and `ys` (`hties`: for every node `a`, the sublist of the nodes tied with `a` is the same
+    list in `xs` and in `ys`), independently of the hash-table regime (`cx₁`, `cx₂` may differ in `nested`) and of the
+    change-value variant.  Distinct (schema, key) alone does NOT give `hties`: instances of one user-ordered (leaf-)list are
+    ties whatever their keys are, and exchanging them changes the result (`insert_perm_distinct_keys_insufficient_for_userord`,
+    the intended behaviour of ordered-by user).  The corollary for two permutations of nodes no two of which are ties —
+    pairwise distinct (schema, key), at most one instance per user-ordered list, at most one opaque node — is
+    `insert_perm_of_perm`. -/
 theorem insert_perm (S : Schema) (cx₁ cx₂ : Cx) (f₁ f₂ : Bool) (xs ys : List Node)
     (hw₁ : cx₁.nested = true → cx₁.top = false) (hw₂ : cx₂.nested = true → cx₂.top = false)
     (hx : HistOk S cx₁ f₁ ⟨[], none⟩ (xs.map Op.insert)) (hy : HistOk S cx₂ f₂ ⟨[], none⟩ (ys.map Op.insert))
@@ -509,12 +514,7 @@ example : (runOps auS auCx true ⟨[], none⟩ (auXs.map Op.insert)).nodes =
   ⟨insert_perm auS auCx { auCx with nested := false } true false auXs auYs (by decide) (by decide)
     (histOkB_sound (by decide)) (histOkB_sound (by decide)) (ties_of_mem _ _ _ (by decide)), by decide⟩
 
--- AUDIT: the docstring's "in particular for any two permutations of nodes with pairwise distinct (schema, key)" is too
--- generous: instances of ONE user-ordered (leaf-)list are ties whatever their keys are, so two permutations that swap
--- them violate `hties` — and the results do differ (next theorem; this is the intended behaviour of ordered-by user, and
--- `properties.jsonl` C04 excepts it).  The theorem itself is fine.  Correct reading: "… of nodes no two of which are
--- ties", i.e. pairwise distinct (schema, key) AND at most one instance per user-ordered list AND at most one opaque
--- node; that corollary is `insert_perm_of_perm` below.
+-- AUDIT (resolved): docstring of `insert_perm` states the tie hypothesis as proved; the permutation form is `insert_perm_of_perm` below.
 /-- two user-ordered list instances with distinct keys, inserted in the two possible orders, give different lists -/
 theorem insert_perm_distinct_keys_insufficient_for_userord :
     (runOps auS auCx true ⟨[], none⟩ (([⟨1, some ⟨0, 3⟩, .str [98]⟩, ⟨5, some ⟨0, 3⟩, .str [97]⟩] : List Node).map Op.insert)).nodes ≠
